@@ -6,6 +6,70 @@ from .C01 import cell_size
 LEVEL = "proof"
 
 
+DECIDED = 1.2e-3
+
+
+def hug_points(run, cells):
+    """points hugging the reported edges of the given cells from both sides, 0.25% .. 2% of a cell size away: in a partition
+    the inner ones belong to the cell alone and the outer ones to exactly one neighbour - displaced edges (overlap slivers,
+    gaps) show up here even when they are far too thin for random points."""
+    rng = run.rng
+    rr = core.impl_only(run, [f"cell_to_boundary {c} 1 6" for c in cells])
+    pts = []
+    for c, a in zip(cells, rr):
+        ring = geo.parse_ring(a)
+        r = spec.res_of(c)
+        if not ring or r is None or r < 0:
+            continue
+        if any(abs(la) > 83.0 for lo, la in ring):
+            continue
+        u = lambda lo, la: (math.cos(math.radians(la)) * math.cos(math.radians(lo)), math.cos(math.radians(la)) * math.sin(math.radians(lo)), math.sin(math.radians(la)))
+        vs = [u(lo, la) for lo, la in ring]
+        for i in range(len(vs) - 1):
+            a0, b0 = vs[i], vs[i + 1]
+            nrm = geo.cross(a0, b0)
+            if geo.norm(nrm) == 0:
+                continue
+            nrm = geo.unit(nrm)
+            t = rng.random()
+            m = geo.unit((a0[0] + t * (b0[0] - a0[0]), a0[1] + t * (b0[1] - a0[1]), a0[2] + t * (b0[2] - a0[2])))
+            d = rng.choice([2.5e-3, 6e-3, 2e-2]) * cell_size(r) * rng.choice([1, -1])
+            q = geo.unit((m[0] + d * nrm[0], m[1] + d * nrm[1], m[2] + d * nrm[2]))
+            pts.append(("hug", math.degrees(math.atan2(q[1], q[0])), math.degrees(math.asin(max(-1.0, min(1.0, q[2])))), r))
+    return pts
+
+
+def focus_points(run, limit):
+    """points around the inputs on which implementation and model disagree: the places where the behaviour of the code
+    changed.  For every such input, a cloud of points within 1.5 cell sizes at the same resolution."""
+    rng = run.rng
+    seeds = []
+    for d in run.corr_disagreements:
+        t = d["request"].split()
+        try:
+            if t[0] == "lonlat_to_cell":
+                seeds.append((geo.fx(t[1]), geo.fx(t[2]), int(t[3])))
+            elif t[0] == "contains":
+                r = spec.res_of(int(t[1]))
+                if r is not None and r >= 0:
+                    seeds.append((geo.fx(t[2]), geo.fx(t[3]), r))
+        except (ValueError, IndexError):
+            continue
+    rng.shuffle(seeds)
+    pts = []
+    per = 24
+    for lon, lat, r in seeds[: max(1, limit // 4)]:
+        s = math.degrees(cell_size(r))
+        for _ in range(per):
+            rad = rng.choice([0.02, 0.1, 0.3, 0.7, 1.5]) * rng.random()
+            a = rng.uniform(0, 2 * math.pi)
+            la = lat + rad * s * math.sin(a)
+            lo = lon + rad * s * math.cos(a) / max(0.05, math.cos(math.radians(lat)))
+            if abs(la) <= 84.0:
+                pts.append(("focus", lo, la, r))
+    return pts
+
+
 def run(run):
     rng = run.rng
     run.do_ties()
@@ -36,70 +100,114 @@ def run(run):
         if abs(lat) > 84.0:
             continue     # the lookup itself is unreliable in the polar caps (known finding F11); neighbours are gathered by lookup
         pts.append((kind, lon, lat, r))
-    # gather candidate cells: the lookup at the point and at 3 rings of 8 probe points around it
-    lreq, owner = [], []
-    for k, (kind, lon, lat, r) in enumerate(pts):
-        s = math.degrees(cell_size(r))
-        lreq.append(f"lonlat_to_cell {geo.hx(lon)} {geo.hx(lat)} {r}"); owner.append(k)
-        for rad in (0.6, 1.2, 2.0):
-            for j in range(8):
-                a = 2 * math.pi * j / 8 + rad
-                la = max(-90.0, min(90.0, lat + rad * s * math.sin(a)))
-                lo = lon + rad * s * math.cos(a) / max(0.02, math.cos(math.radians(lat)))
-                lreq.append(f"lonlat_to_cell {geo.hx(lo)} {geo.hx(la)} {r}"); owner.append(k)
-    limpl, lmodel = core.both(run, lreq, "lonlat_to_cell")
-    cands = {}
-    for k, a in zip(owner, limpl):
-        if a.startswith("ok "):
-            cands.setdefault(k, set()).add(int(a.split()[1]))
-    creq, cmeta = [], []
-    for k, cs in cands.items():
-        kind, lon, lat, r = pts[k]
-        for c in sorted(cs):
-            creq.append(f"contains {c} {geo.hx(lon)} {geo.hx(lat)}"); cmeta.append((k, c))
-    cimpl, cmodel = core.both(run, creq, "contains")
-    claims = {}
-    for (k, c), a in zip(cmeta, cimpl):
-        if a.startswith("ok "):
-            claims.setdefault(k, []).append((c, geo.fx(a.split()[1])))
-    # independent check with the reported boundaries for the cells that claim the point (and the best runner-up)
-    breq, bmeta = [], []
-    for k, lst in claims.items():
-        kind, lon, lat, r = pts[k]
-        for c, dval in sorted(lst, key=lambda x: -x[1])[:3]:
-            breq.append(f"cell_to_boundary {c} 1 {12 if r > 2 else 32}"); bmeta.append((k, c, dval))
-    bimpl = core.impl_only(run, breq)
-    ringclaims = {}
-    for (k, c, dval), b in zip(bmeta, bimpl):
-        ring = geo.parse_ring(b)
-        if ring:
+    state = {}
+
+    def evaluate(pts, tag):
+        # gather candidate cells: the lookup at the point and at 3 rings of 8 probe points around it
+        lreq, owner = [], []
+        for k, (kind, lon, lat, r) in enumerate(pts):
+            s = math.degrees(cell_size(r))
+            lreq.append(f"lonlat_to_cell {geo.hx(lon)} {geo.hx(lat)} {r}"); owner.append(k)
+            for rad in (0.6, 1.2, 2.0):
+                for j in range(8):
+                    a = 2 * math.pi * j / 8 + rad
+                    la = max(-90.0, min(90.0, lat + rad * s * math.sin(a)))
+                    lo = lon + rad * s * math.cos(a) / max(0.02, math.cos(math.radians(lat)))
+                    lreq.append(f"lonlat_to_cell {geo.hx(lo)} {geo.hx(la)} {r}"); owner.append(k)
+        limpl, lmodel = core.both(run, lreq, "lonlat_to_cell")
+        cands = {}
+        for k, a in zip(owner, limpl):
+            if a.startswith("ok "):
+                cands.setdefault(k, set()).add(int(a.split()[1]))
+        creq, cmeta = [], []
+        for k, cs in cands.items():
             kind, lon, lat, r = pts[k]
-            inside, dist = geo.winding_contains(ring, lon, lat)
-            ringclaims.setdefault(k, []).append((c, inside, dist / cell_size(r), dval))
-    for k, lst in claims.items():
-        run.evaluations += 1
-        kind, lon, lat, r = pts[k]
-        q = f"lonlat_to_cell {geo.hx(lon)} {geo.hx(lat)} {r}"
-        inside = [c for c, d in lst if d > 0.0]
-        near = [d for c, d in lst if d <= 0.0 and d > -1e-9]
-        rc = ringclaims.get(k, [])
-        decided = all(x[2] > 5e-3 for x in rc)       # not within 0.5% of a cell size of any candidate's ring
-        if len(inside) >= 2:
-            # two cells claim the point strictly in the plane test: overlap (only reported when the independent ring test agrees it is not an edge case)
-            both = [x for x in rc if x[0] in inside and x[1]]
-            if len(both) >= 2 and decided:
-                run.violation(f"two different cells of resolution {r} contain the point strictly: {inside[0]:#x} and {inside[1]:#x} ({kind})", q, str(lst[:4]))
-        elif len(inside) == 0 and not near and decided:
-            run.violation(f"no cell of resolution {r} in the two-ring neighbourhood contains the point: gap ({kind})", q, str(sorted(lst, key=lambda x: -x[1])[:3]))
-        if decided and len(lst) >= 3:
-            run.nontrivial.add(k)
-        if decided and rc:
-            n_in = sum(1 for x in rc if x[1])
-            if n_in >= 2:
-                run.violation(f"the reported boundaries of two cells of resolution {r} both contain the point ({kind})", q, str([(hex(x[0]), round(x[2], 4)) for x in rc]))
+            for c in sorted(cs):
+                creq.append(f"contains {c} {geo.hx(lon)} {geo.hx(lat)}"); cmeta.append((k, c))
+        cimpl, cmodel = core.both(run, creq, "contains")
+        claims = {}
+        for (k, c), a in zip(cmeta, cimpl):
+            if a.startswith("ok "):
+                claims.setdefault(k, []).append((c, geo.fx(a.split()[1])))
+        # independent check with the reported boundaries for the cells that claim the point (and the best runner-up)
+        breq, bmeta = [], []
+        for k, lst in claims.items():
+            kind, lon, lat, r = pts[k]
+            for c, dval in sorted(lst, key=lambda x: -x[1])[:3]:
+                breq.append(f"cell_to_boundary {c} 1 {32 if r > 3 else 64}"); bmeta.append((k, c, dval))
+        bimpl = core.impl_only(run, breq)
+        ringclaims = {}
+        for (k, c, dval), b in zip(bmeta, bimpl):
+            ring = geo.parse_ring(b)
+            if ring:
+                kind, lon, lat, r = pts[k]
+                inside, dist = geo.winding_contains(ring, lon, lat)
+                ringclaims.setdefault(k, []).append((c, inside, dist / cell_size(r), dval))
+        for k, lst in claims.items():
+            run.evaluations += 1
+            kind, lon, lat, r = pts[k]
+            q = f"lonlat_to_cell {geo.hx(lon)} {geo.hx(lat)} {r}"
+            inside = [c for c, d in lst if d > 0.0]
+            near = [d for c, d in lst if d <= 0.0 and d > -1e-9]
+            rc = ringclaims.get(k, [])
+            floor = max(DECIDED, 2e-11 / cell_size(r))       # never decide inside the 1e-12 rad rounding band of the projection pair
+            decided = all(x[2] > floor for x in rc)          # not within 0.12% of a cell size of any candidate's ring (32/64-segment edges)
+            if len(inside) >= 2 and decided:
+                # two cells claim the point strictly in the planar containment test, and the point is clear of every candidate's reported edge
+                both = [x for x in rc if x[0] in inside and x[1]]
+                if len(both) >= 2:
+                    run.violation(f"two different cells of resolution {r} contain the point strictly: {inside[0]:#x} and {inside[1]:#x} ({kind})", q, str(lst[:4]))
+                else:
+                    out = [x for x in rc if x[0] in inside and not x[1]]
+                    run.violation(f"two different cells of resolution {r} claim the point strictly in the containment test ({inside[0]:#x}, {inside[1]:#x}), "
+                                  f"although the point lies outside the reported boundary of {out[0][0] if out else 0:#x} by {out[0][2] if out else 0:.3g} cell sizes ({kind})", q, str(lst[:4]))
+            elif len(inside) == 0 and not near and decided:
+                run.violation(f"no cell of resolution {r} in the two-ring neighbourhood contains the point: gap ({kind})", q, str(sorted(lst, key=lambda x: -x[1])[:3]))
+            if decided and len(lst) >= 3:
+                run.nontrivial.add((tag, k))
+            if decided and rc:
+                n_in = sum(1 for x in rc if x[1])
+                if n_in >= 2:
+                    run.violation(f"the reported boundaries of two cells of resolution {r} both contain the point ({kind})", q, str([(hex(x[0]), round(x[2], 4)) for x in rc]))
+
+        state['creq'], state['cimpl'], state['cmodel'], state['cands'] = creq, cimpl, cmodel, cands
+
+    evaluate(pts, "main")
+    main = dict(state)
+    # edge-hugging points of cells next to seams (owners of the seam points) and of random cells
+    seam_cells = sorted({c for k, cs in main['cands'].items() if pts[k][0] == "seam" for c in cs})
+    rng.shuffle(seam_cells)
+    hug_cells = seam_cells[: (25 if quick else 600)] + [gen.rand_cell(rng, lo=0) for _ in range(10 if quick else 300)]
+    hp = hug_points(run, hug_cells)
+    rng.shuffle(hp)
+    hp = hp[: (500 if quick else 15000)]
+    evaluate(hp, "hug")
+    run.extra["edge_hugging_points"] = len(hp)
+    # escalation: when implementation and model disagree, search around the disagreeing inputs (where the behaviour changed)
+    if run.corr_disagreements and not run.violations:
+        focus = focus_points(run, 60 if quick else 400)
+        fcells = set()
+        for d in run.corr_disagreements:
+            for side in ("impl", "model"):
+                t = d[side].split()
+                if d["request"].startswith("lonlat_to_cell") and len(t) >= 2 and t[0] == "ok" and t[1].isdigit():
+                    fcells.add(int(t[1]))
+            if d["request"].startswith("contains"):
+                fcells.add(int(d["request"].split()[1]))
+        fcells = sorted(fcells)
+        rng.shuffle(fcells)
+        fh = hug_points(run, fcells[: (40 if quick else 400)])
+        run.note(f"correspondence disagreements: focused search on {len(focus)} points around them and {len(fh)} edge-hugging points of the cells involved")
+        if focus or fh:
+            evaluate(focus + fh, "focus")
+        run.extra["focused_points"] = len(focus) + len(fh)
+    creq, cimpl, cmodel, cands = main['creq'], main['cimpl'], main['cmodel'], main['cands']
     run.rule = ("points (60% uniform, 40% stepped 0.05..1.5 cell sizes away from edges / vertices of base cells and quintants, i.e. quintant borders, dodecahedron edges and vertices) x random resolutions 0..29, |lat| <= 84; "
                 "for each point the candidate set = cells returned for the point and for 24 probe points on three rings (0.6 / 1.2 / 2 cell sizes); "
-                "the planar containment test (impl) and an independent winding test on the reported boundaries must give exactly one strict owner; non-trivial = distinct decided points with >= 3 candidate cells")
+                "the planar containment test (impl) and an independent winding test on the reported boundaries must give exactly one strict owner; "
+                "plus edge-hugging points (0.25% / 0.6% / 2% of a cell size inside and outside the reported edges of cells next to seams and of random cells); "
+                "when implementation and model disagree anywhere, a focused pass around the disagreeing inputs and along the edges of the cells involved; "
+                "non-trivial = distinct decided points with >= 3 candidate cells")
     run.samples = [{"request": creq[i], "impl": cimpl[i], "model": cmodel[i]} for i in rng.sample(range(len(creq)), 6)]
     run.extra["points"] = len(pts)
     run.extra["candidate_cells_per_point_mean"] = round(sum(len(v) for v in cands.values()) / max(1, len(cands)), 2)
